@@ -51,15 +51,25 @@ class Trace:
 
 
 class Fut:
-    __slots__ = ("func", "cb", "res", "exc", "call_no", "bid", "items", "done", "cb_returned", "submit_thread", "cancelled")
+    __slots__ = ("func", "cb", "res", "exc", "call_no", "bid", "items", "done", "cb_returned", "submit_thread", "cancelled", "finished")
 
     def __init__(self, func, cb, call_no, bid, items):
         self.func, self.cb, self.call_no, self.bid, self.items = func, cb, call_no, bid, items
         self.res = self.exc = None
         self.done = False
         self.cb_returned = threading.Event()
+        self.finished = threading.Event()
         self.submit_thread = threading.get_ident()
         self.cancelled = False
+
+    def get(self, timeout=None):
+        """what joblib calls (through backend.retrieve_result) on backends WITHOUT a retrieval callback: block until the
+        batch has run, return its results or raise its exception"""
+        if not self.finished.wait(timeout):
+            raise TimeoutError()
+        if self.exc is not None:
+            raise self.exc
+        return self.res
 
 
 def make_backend_class():
@@ -70,8 +80,12 @@ def make_backend_class():
         uses_threads = True
         supports_sharedmem = True
 
-        def __init__(self, trace=None, item_id=None, sync_in_submit=None, **kw):
+        def __init__(self, trace=None, item_id=None, sync_in_submit=None, retrieve_callback=True, **kw):
             super().__init__(**kw)
+            # retrieve_callback=False: the plain flavour of joblib's backend API (ParallelBackendBase's default, what a
+            # third-party backend written against the documented minimum gets): the completion callback only dispatches
+            # more work, results are fetched by the caller's thread with retrieve_result() in submission order
+            self.supports_retrieve_callback = retrieve_callback
             self.trace = trace or Trace()
             self.cv = threading.Condition()
             self.pending = []          # submitted, not yet completed
@@ -183,6 +197,7 @@ def make_backend_class():
             except BaseException as e:  # noqa
                 fut.exc = e
             fut.done = True
+            fut.finished.set()
 
         def _callback(self, fut, sync=False):
             with self.cv:
